@@ -71,14 +71,9 @@ fn collect_tagged_keys(
                         untagged.insert(YamlValue::String(key_str), value);
                     }
                     key => {
-                        // a number, boolean or null used as a key names its member by its text in the
-                        // JSON claims; tags below it are tagged nodes like any others
-                        let name = match &key {
-                            YamlValue::Number(number) => Some(number.to_string()),
-                            YamlValue::Bool(flag) => Some(flag.to_string()),
-                            YamlValue::Null => Some("null".to_string()),
-                            _ => None,
-                        };
+                        // a number, boolean or null used as a key, or a key under a tag other than !sd, still
+                        // names a member of the JSON claims; tags below it are tagged nodes like any others
+                        let name = member_name(&key);
                         if let Some(name) = name {
                             claim_name(&mut names, &name)?;
                             path.push_back(escape_segment(&name));
@@ -128,6 +123,20 @@ fn collect_tagged_keys(
     }
 
     Ok(())
+}
+
+// The member of the JSON claims a key that is not a plain string names: a number, boolean or null names
+// it by its text, and a key that carries some other tag than !sd keeps the name of the scalar under
+// the tag (the conversion to JSON drops the tags of keys). Other keys have no JSON member name.
+fn member_name(key: &YamlValue) -> Option<String> {
+    match key {
+        YamlValue::String(text) => Some(text.clone()),
+        YamlValue::Number(number) => Some(number.to_string()),
+        YamlValue::Bool(flag) => Some(flag.to_string()),
+        YamlValue::Null => Some("null".to_string()),
+        YamlValue::Tagged(tagged) if tagged.tag != "!sd" => member_name(&tagged.value),
+        _ => None,
+    }
 }
 
 // Two keys of one mapping may name the same member of the JSON claims: a key and the same key with an
